@@ -143,7 +143,7 @@ func Driver() int {
 	var wg sync.WaitGroup
 	reports := make([]*ShardReport, shards)
 	errs := make([]error, shards)
-	watchdog := time.Duration(budget)*time.Second*4 + 120*time.Second
+	watchdog := time.Duration(budget)*time.Second*4 + 1100*time.Second
 	for i := 0; i < shards; i++ {
 		wg.Add(1)
 		go func(i int) {
